@@ -82,12 +82,14 @@ def conv_obj(x):
 CONV = {
     "long": "conv_long", "int": "conv_int", "unsigned char": "conv_uchar", "char": "conv_char", "Py_ssize_t": "conv_ssize",
     "double": "conv_double", "bint": "conv_bint", "str": "conv_str", "bytearray": "conv_obj", "array.array": "conv_obj",
+    # Python object types (no C conversion beyond a type test that the module's own values always pass)
+    "tuple": "conv_obj", "list": "conv_obj", "dict": "conv_obj", "object": "conv_obj", "bytes": "conv_obj", "frozenset": "conv_obj",
     "": "conv_obj",
 }
 TYPES = sorted([t for t in CONV if t], key=len, reverse=True)
 TYPE_RE = "|".join(re.escape(t) for t in TYPES)
 
-_def = re.compile(r"^(\s*)(cpdef|cdef|def)\s+(?:(%s)\s+)?(\w+)\((.*)\)\s*:\s*$" % TYPE_RE)
+_def = re.compile(r"^(\s*)(cpdef|cdef|def)\s+(?:inline\s+)?(?:(%s)\s+)?(\w+)\((.*)\)\s*(?:noexcept\s*)?:\s*$" % TYPE_RE)
 _cdef_var = re.compile(r"^(\s*)cdef\s+(%s)(\[[^\]]*\])?\s+(\w+)(\[\d+\])?\s*(?:=\s*(.*))?$" % TYPE_RE)
 _cdef_untyped = re.compile(r"^(\s*)cdef\s+(\w+)\s*=\s*(.*)$")
 _assign = re.compile(r"^(\s*)(\w+)\s*(\^=|\+=|-=|\*=|=)\s*(.*)$")
@@ -108,7 +110,9 @@ def _strip_comment(line):
 
 
 def _expr(e):
-    e = re.sub(r"<long>\s*(\w+\([^()]*\))", r"cast_long(\1)", e)
+    e = re.sub(r"<long>\s*(\w+\([^()]*\))", r"cast_long(\1)", e)      # <long> f(x)
+    e = re.sub(r"<long>\s*(\([^()]*\))", r"cast_long\1", e)              # <long> (expr)
+    e = re.sub(r"<long>\s*([A-Za-z_]\w*)\b(?!\s*[\(\[])", r"cast_long(\1)", e)   # <long> name
     if "<long>" in e or "<" + "int>" in e:
         raise Unknown(e)
     e = e.replace("PyBytes_GET_SIZE(", "len(").replace("PyByteArray_GET_SIZE(", "len(")
@@ -166,10 +170,10 @@ def translit(src: str) -> str:
         if s.startswith("cimport ") or re.match(r"^from\s+\S+\s+cimport\b", s) or s.startswith("@cython."):
             continue
         # multi-line statements (open brackets): join
-        while line.count("(") + line.count("[") > line.count(")") + line.count("]") and i < len(lines):
-            line = line + " " + lines[i].strip()
-            i += 1
         line = _strip_comment(line)
+        while line.count("(") + line.count("[") > line.count(")") + line.count("]") and i < len(lines):
+            line = line + " " + _strip_comment(lines[i]).strip()
+            i += 1
         s = line.strip()
         if not s:
             continue
